@@ -27,6 +27,10 @@ Accepted statements (everything else raises `Unsupported`):
     `warnings.filterwarnings(...)`;  integer bookkeeping locals of the block loops (`chunk_size = 100`,
     `radius = int(size / 2)`, `x = np.array_split(...)`, `*_begin = …`) — their meaning is T8's.
 
+Bilateral extension: `w = min(<dims>, int(K1 * sigma_space + K2))` (T8's window formula), `o = int(<nat> / K)` (a natural),
+`t = self.<uninterpreted>(<nat>, <float>)` (a table of an uninterpreted function), float parameters passed positionally at
+calls, and block kernels that are calls of a per-window function (`WinFn`, `read_window_function`: see its docstring).
+
 Trusted: that all 2-D arrays of one program have the shape `ny × nx` handed to it (they are copies of each other), the
 reading of `np.array_split` (ported from `Model/Blocks.lean`), and the named reductions (`np.nanmedian`, `np.argmin`)
 whose meaning is the hand model's.  Validated on every run of C10 / C03 against the real functions, including the
@@ -60,7 +64,7 @@ class Spec:
     """how one function is read: which source expressions are arrays / integer arrays / naturals / callable kernels"""
 
     def __init__(self, rel, cls, meth, lean_name, arrays=None, ints=None, nats=None, calls=None, t8=None, scalars=None,
-                 in_place=None, reductions=None):
+                 in_place=None, reductions=None, rats=None, ufuns=None, winfns=None):
         self.rel, self.cls, self.meth, self.lean_name = rel, cls, meth, lean_name
         self.arrays = dict(arrays or {})  # source text -> lean name (array identities, parameters of the Lean def)
         self.ints = dict(ints or {})  # source text -> lean name (integer arrays, read only)
@@ -70,6 +74,9 @@ class Spec:
         self.t8 = t8  # (name in Generated/Blocks.lean, size text) of the block loop, or None
         self.in_place = in_place  # lean name of the array the function updates when it returns nothing
         self.reductions = dict(reductions or {"nanmedian": "Filter.nanmedian"})
+        self.rats = dict(rats or {})  # source text -> lean name (float parameters read as exact rationals: the sigmas)
+        self.ufuns = dict(ufuns or {})  # source text of an UNINTERPRETED function -> (lean name, lean type)
+        self.winfns = dict(winfns or {})  # source text of a per-window kernel -> WinFn (block kernels)
 
     @property
     def where(self):
@@ -124,6 +131,12 @@ class _Reader:
         if isinstance(node, ast.Name) and self.kinds.get(node.id) == "nat":
             return node.id
         return None
+
+    def rat(self, node):
+        return self.spec.rats.get(_dotted(node))
+
+    def table(self, node):
+        return node.id if isinstance(node, ast.Name) and self.kinds.get(node.id) == "table" else None
 
     def fresh_copy(self, node):
         """np.copy(a) | a.copy() | a.copy(deep=True) | <atom>.copy(deep=True).data | copy.deepcopy(a) -> source array"""
@@ -223,12 +236,14 @@ class _Reader:
             return
         if isinstance(val, ast.Call) and _dotted(val.func) in self.spec.calls and not val.keywords:
             fn = self.spec.calls[_dotted(val.func)]
-            arrs, explicit = [], []
+            arrs, explicit, rats = [], [], []
             for a_ in val.args:
                 if self.arr(a_) is not None:
                     arrs.append(self.arr(a_))
                 elif self.nat(a_) is not None:
                     explicit.append(self.nat(a_))
+                elif self.rat(a_) is not None:
+                    rats.append(self.rat(a_))  # positional: the callee's float parameters in the order of its signature
                 else:
                     self.bad(f"unsupported argument of {_dotted(val.func)}", st)
             nats = []  # aligned with the callee's natural parameters: `self.<attr>` is the caller's own, others positional
@@ -241,15 +256,45 @@ class _Reader:
                     nats.append(explicit.pop(0))
                 else:
                     self.bad(f"missing argument of {_dotted(val.func)}", st)
-            if explicit or len(arrs) != len(fn.spec.arrays) or fn.ret is None:
+            if explicit or len(arrs) != len(fn.spec.arrays) or len(rats) != len(fn.spec.rats) or fn.ret is None:
                 self.bad(f"call of {_dotted(val.func)} with unexpected arguments", st)
+            for text, (ln, _) in fn.spec.ufuns.items():
+                if self.spec.ufuns.get(text, (None,))[0] != ln:
+                    self.bad(f"{_dotted(val.func)} uses {text}, unknown to the caller", st)
             self.bind(name, "arr", st)
-            self.stmts.append(("call", name, fn, arrs, nats))
+            self.stmts.append(("call", name, fn, arrs, nats, rats))
+            return
+        # win_width = min(<dims>, int(K1 * sigma_space + K2)): the formula T8 reads (Generated.Blocks.<name>WinWidth)
+        if isinstance(val, ast.Call) and isinstance(val.func, ast.Name) and val.func.id == "min" and self.spec.t8 is not None:
+            info = gen_blocks.LoopInfo(self.spec.where)
+            info.dims = {n: (0 if k == "dimy" else 1) for n, k in self.kinds.items() if k in ("dimy", "dimx")}
+            w = gen_blocks._window(val, info)  # pylint: disable=protected-access
+            sig = self.spec.rats.get("sigma_space")
+            if w is None or w[0] != [0, 1] or sig is None:
+                self.bad("unsupported window formula", st)
+            self.bind(name, "nat", st)
+            self.stmts.append(("winwidth", name, self.spec.t8[0], sig, w[1], w[2]))
+            return
+        # a natural derived from a natural: offset = int(win_width / 2)
+        h = gen_blocks._half(val)  # pylint: disable=protected-access
+        if h:
+            size = self.spec.nats.get(h[0]) or (h[0] if self.kinds.get(h[0]) == "nat" else None)
+            if size is not None:
+                self.bind(name, "nat", st)
+                self.stmts.append(("nathalf", name, size, h[1], h[2] if len(h) > 2 else 0))
+                return
+        # a table of an uninterpreted function: gauss_spatial_kernel = self.gauss_spatial_kernel(win_width, sigma_space)
+        if isinstance(val, ast.Call) and _dotted(val.func) in self.spec.ufuns and not val.keywords and len(val.args) == 2:
+            n_, r_ = self.nat(val.args[0]), self.rat(val.args[1])
+            if n_ is None or r_ is None:
+                self.bad(f"unsupported arguments of {_dotted(val.func)}", st)
+            self.bind(name, "table", st)
+            self.stmts.append(("table", name, self.spec.ufuns[_dotted(val.func)][0], n_, r_))
             return
         # integer bookkeeping of the block loops: meaning given by T8 (gen_blocks), which refuses what it cannot read
         if gen_blocks._int(val) or gen_blocks._half(val) or (  # pylint: disable=protected-access
             isinstance(val, ast.Call) and _is_np(val.func, "array_split")
-        ) or (isinstance(val, ast.Name) and self.kinds.get(val.id) == "book"):
+        ) or (isinstance(val, ast.Name) and self.kinds.get(val.id) in ("book", "nat")):
             if self.spec.t8 is None:
                 self.bad(f"integer local {name} outside a block loop", st)
             self.bind(name, "book", st)
@@ -353,6 +398,21 @@ class _Reader:
             ax = kws.get("axis")
             if set(kws) == {"axis"} and isinstance(ax, ast.Tuple) and [getattr(e, "value", None) for e in ax.elts] == [2, 3]:
                 return ("reduce", "nanmedian")
+        if isinstance(val, ast.Call) and _dotted(val.func) in self.spec.winfns and not val.keywords and val.args \
+                and chunk.matches(val.args[0]):
+            wf = self.spec.winfns[_dotted(val.func)]
+            if len(val.args) - 1 != len(wf.params):
+                self.bad(f"{_dotted(val.func)} called with {len(val.args) - 1} arguments after the windows", node)
+            args = []
+            for a_, (pname, kind) in zip(val.args[1:], wf.params):
+                got = {"table": self.table, "rat": self.rat, "nat": self.nat}[kind](a_)
+                if got is None:
+                    self.bad(f"argument {pname} of {_dotted(val.func)} is not a {kind}", node)
+                args.append(got)
+            for text, ln in wf.ufuns.items():
+                if self.spec.ufuns.get(text, (None,))[0] != ln:
+                    self.bad(f"{_dotted(val.func)} uses {text}, unknown to the caller", node)
+            return ("winfn", wf, args)
         self.bad(f"unsupported block kernel {ast.unparse(val)[:70]}", node)
         return None
 
@@ -452,7 +512,8 @@ def mask_lean(m, s):
 
 def render_lean(fn: Fn) -> str:
     sp = fn.spec
-    params = [f"({lname(n)} : Nat)" for n in sp.nats.values()] + ["(ny nx : Nat)"]
+    params = [f"({ln} : {ty})" for ln, ty in sp.ufuns.values()]
+    params += [f"({lname(n)} : Nat)" for n in sp.nats.values()] + [f"({lname(n)} : Rat)" for n in sp.rats.values()] + ["(ny nx : Nat)"]
     params += [f"({lname(n)} : Nat → Nat → Nat)" for n in sp.ints.values()]
     params += [f"({lname(n)} : Val)" for n in sp.scalars.values()]
     params += [f"({lname(n)} : Nat)" for n in sp.arrays.values()]
@@ -482,13 +543,26 @@ def render_lean(fn: Fn) -> str:
         elif st[0] == "blocks":
             _, dst, view, kern, t8name, size = st
             v = lname(view)
-            kl = f"(windowKernel {sp.reductions[kern[1]]} {v}.w)" if kern[0] == "reduce" else kern[1]
+            if kern[0] == "reduce":
+                kl = f"(windowKernel {sp.reductions[kern[1]]} {v}.w)"
+            else:
+                wf = kern[1]
+                kl = ("(windowFnKernel (" + " ".join([wf.lean_name] + list(wf.ufuns.values()) + [f"{v}.w"] + [lname(a) for a in kern[2]]) + "))")
             out.append(f"  let s{k + 1} := blockedSt ((Generated.Blocks.{t8name} {lname(size)}).plan ({v}.rows ny) ({v}.cols nx) [ny, nx])")
             out.append(f"    {kl} {lname(dst)} {v}.base {s}")
             k += 1
+        elif st[0] == "winwidth":
+            out.append(f"  let {lname(st[1])} : Nat := Generated.Blocks.{st[2]}WinWidth [ny, nx] {lname(st[3])}")
+        elif st[0] == "nathalf":
+            num = lname(st[2]) if st[4] == 0 else f"({lname(st[2])} - {st[4]})"
+            out.append(f"  let {lname(st[1])} : Nat := {num} / {st[3]}")
+        elif st[0] == "table":
+            out.append(f"  let {lname(st[1])} : Nat → Nat → Rat := {st[2]} {lname(st[3])} {lname(st[4])}")
         elif st[0] == "call":
-            _, tgt, callee, arrs, nats = st
-            args = " ".join([lname(n) for n in nats] + ["ny nx"] + [lname(a) for a in arrs])
+            _, tgt, callee, arrs, nats = st[:5]
+            rats = st[5] if len(st) > 5 else []
+            args = " ".join([ln for ln, _ in callee.spec.ufuns.values()] + [lname(n) for n in nats] + [lname(r) for r in rats]
+                            + ["ny nx"] + [lname(a) for a in arrs])
             out.append(f"  let p{k + 1} := {callee.lean_name} {args} {s}")
             out.append(f"  let s{k + 1} := p{k + 1}.1")
             out.append(f"  let {lname(tgt)} : Nat := p{k + 1}.2")
@@ -570,9 +644,13 @@ def split_of(t8, size):
         "beginY": begin(t8["beginY"]), "beginX": begin(t8["beginX"])}
 
 
-def evaluate(fn: Fn, store: PStore, ny, nx, arrays, ints=None, nats=None, scalars=None, consts=None, t8=None):
-    """run the statement list; `arrays`: lean name -> identity. Returns the identity of the returned array (or None)."""
+def evaluate(fn: Fn, store: PStore, ny, nx, arrays, ints=None, nats=None, scalars=None, consts=None, t8=None, rats=None,
+             ufuns=None):
+    """run the statement list; `arrays`: lean name -> identity. Returns the identity of the returned array (or None).
+    `ufuns`: lean name -> Python callable standing for an uninterpreted function; `rats`: lean name -> number."""
     env = dict(arrays)
+    env.update(rats or {})
+    ufuns = ufuns or {}
     env.update(ints or {})
     env.update(nats or {})
     env.update(scalars or {})
@@ -618,18 +696,202 @@ def evaluate(fn: Fn, store: PStore, ny, nx, arrays, ints=None, nats=None, scalar
                 xb = sp["beginX"]
                 for xs, xlen in xchunks:
                     b = store.arr[base]  # the view reads what its base holds NOW
-                    block = [[REDUCTIONS[kern[1]]([b[ys + i + p][xs + j + q] for p in range(w) for q in range(w)])
-                              for j in range(xlen)] for i in range(ylen)]
+                    if kern[0] == "reduce":
+                        block = [[REDUCTIONS[kern[1]]([b[ys + i + p][xs + j + q] for p in range(w) for q in range(w)])
+                                  for j in range(xlen)] for i in range(ylen)]
+                    else:
+                        wf, wargs = kern[1], [env[a] for a in kern[2]]
+                        block = [[eval_winfn(wf, [[b[ys + i + p][xs + j + q] for q in range(w)] for p in range(w)], w, wargs, ufuns)
+                                  for j in range(xlen)] for i in range(ylen)]
                     for i in range(ylen):
                         for j in range(xlen):
                             d[yb + i][xb + j] = block[i][j]
                     xb += xlen
                 yb += ylen
+        elif st[0] == "winwidth":
+            env[st[1]] = min(ny, nx, int(st[4] * env[st[3]] + st[5]))
+        elif st[0] == "nathalf":
+            env[st[1]] = (env[st[2]] - st[4]) // st[3]
+        elif st[0] == "table":
+            env[st[1]] = ufuns[st[2]](env[st[3]], env[st[4]])
         elif st[0] == "call":
-            _, tgt, callee, arrs, nats_ = st
+            _, tgt, callee, arrs, nats_ = st[:5]
+            rats_ = st[5] if len(st) > 5 else []
             sub_arrays = dict(zip(callee.spec.arrays.values(), [env[a] for a in arrs]))
             sub_nats = dict(zip(callee.spec.nats.values(), [env[n] for n in nats_]))
-            env[tgt] = evaluate(callee, store, ny, nx, sub_arrays, nats=sub_nats, consts=consts, t8=t8)
+            sub_rats = dict(zip(callee.spec.rats.values(), [env[r] for r in rats_]))
+            env[tgt] = evaluate(callee, store, ny, nx, sub_arrays, nats=sub_nats, consts=consts, t8=t8, rats=sub_rats, ufuns=ufuns)
         else:
             raise AssertionError(st)
     return env[fn.ret] if fn.ret is not None else None
+
+
+# ---------------------------------------------------------------------------------------------
+# per-window kernels (block kernels written as vectorised numpy over a batch of windows)
+# ---------------------------------------------------------------------------------------------
+class WinFn:
+    """`bilateral_kernel(windows, <params…>)`: a function of ONE w x w window, read from expressions over the 4-D batch
+
+        E ::= windows | <local>
+            | np.transpose(np.transpose(E) - np.transpose(windows[:, :, i, j]))      the window minus its cell (i, j)
+            | self.<uninterpreted>(E, <rat>)                                         element-wise, NaN-propagating
+            | np.multiply(<table>, E) | np.multiply(E, <table>) | <table> * E        (w, w) table broadcast over the batch
+            | np.multiply(E, E) | E * E
+        return np.nansum(E, axis=(2, 3)) / np.nansum(E, axis=(2, 3))
+    """
+
+    def __init__(self, rel, cls, meth, lean_name, params, ufuns):
+        self.rel, self.cls, self.meth, self.lean_name = rel, cls, meth, lean_name
+        self.params = list(params)  # [(python name, 'table' | 'rat' | 'nat')] after the windows parameter
+        self.ufuns = dict(ufuns)  # source text -> lean name
+        self.locals, self.ret, self.source, self.win = [], None, "", None
+
+    @property
+    def where(self):
+        return f"{self.rel}:{self.cls}.{self.meth}"
+
+
+def read_window_function(wf: WinFn, fn_node=None) -> WinFn:
+    fn = fn_node if fn_node is not None else find_method(find_class(parse(wf.rel), wf.cls), wf.meth)
+    names = [a.arg for a in fn.args.args if a.arg != "self"]
+    if not names or names[1:] != [p for p, _ in wf.params]:
+        raise Unsupported(f"{wf.where}: parameters {names}, expected the windows then {[p for p, _ in wf.params]}")
+    wf.win = names[0]
+    kinds = dict(wf.params)
+    bound = set()
+
+    def bad(msg, node=None):
+        line = f" (line {node.lineno})" if node is not None and hasattr(node, "lineno") else ""
+        raise Unsupported(f"{wf.where}: {msg}{line}")
+
+    def is_t(node, inner):
+        return isinstance(node, ast.Call) and _is_np(node.func, "transpose") and len(node.args) == 1 and not node.keywords and inner(node.args[0])
+
+    def expr(node):
+        if isinstance(node, ast.Name):
+            if node.id == wf.win or node.id in bound:
+                return ("var", node.id)
+            bad(f"unknown array {node.id}", node)
+        if isinstance(node, ast.Call) and _is_np(node.func, "transpose") and len(node.args) == 1 and not node.keywords:
+            d = node.args[0]
+            if isinstance(d, ast.BinOp) and isinstance(d.op, ast.Sub) and is_t(d.left, lambda _: True) and is_t(d.right, lambda _: True):
+                e = expr(d.left.args[0])
+                c = d.right.args[0]
+                if (isinstance(c, ast.Subscript) and isinstance(c.value, ast.Name) and c.value.id == wf.win and isinstance(c.slice, ast.Tuple)
+                        and len(c.slice.elts) == 4 and all(isinstance(x, ast.Slice) and x.lower is None and x.upper is None and x.step is None
+                                                            for x in c.slice.elts[:2])
+                        and all(isinstance(x, ast.Name) and kinds.get(x.id) == "nat" for x in c.slice.elts[2:])):
+                    return ("subc", e, c.slice.elts[2].id, c.slice.elts[3].id)
+            bad("unsupported transpose expression", node)
+        if isinstance(node, ast.Call) and _dotted(node.func) in wf.ufuns and len(node.args) == 2 and not node.keywords:
+            if not (isinstance(node.args[1], ast.Name) and kinds.get(node.args[1].id) == "rat"):
+                bad(f"second argument of {_dotted(node.func)} is not a float parameter", node)
+            return ("ufun", wf.ufuns[_dotted(node.func)], expr(node.args[0]), node.args[1].id)
+        pair = None
+        if isinstance(node, ast.Call) and _is_np(node.func, "multiply") and len(node.args) == 2 and not node.keywords:
+            pair = node.args
+        elif isinstance(node, ast.BinOp) and isinstance(node.op, ast.Mult):
+            pair = [node.left, node.right]
+        if pair:
+            tabs = [isinstance(x, ast.Name) and kinds.get(x.id) == "table" for x in pair]
+            if tabs == [True, False]:
+                return ("mulk", pair[0].id, expr(pair[1]))
+            if tabs == [False, True]:
+                return ("mulk", pair[1].id, expr(pair[0]))
+            if tabs == [False, False]:
+                return ("mul", expr(pair[0]), expr(pair[1]))
+        bad(f"unsupported expression {ast.unparse(node)[:60]}", node)
+        return None
+
+    def nansum(node):
+        if isinstance(node, ast.Call) and _is_np(node.func, "nansum") and len(node.args) == 1:
+            kws = {k.arg: k.value for k in node.keywords}
+            ax = kws.get("axis")
+            if set(kws) == {"axis"} and isinstance(ax, ast.Tuple) and [getattr(e, "value", None) for e in ax.elts] == [2, 3]:
+                return expr(node.args[0])
+        bad(f"expected np.nansum(<E>, axis=(2, 3)), got {ast.unparse(node)[:50]}", node)
+        return None
+
+    for st in fn.body:
+        if wf.ret is not None:
+            bad("statement after return", st)
+        if isinstance(st, ast.Expr) and isinstance(st.value, ast.Constant) and isinstance(st.value.value, str):
+            continue
+        if isinstance(st, ast.Expr) and isinstance(st.value, ast.Call) and _dotted(st.value.func) == "warnings.filterwarnings":
+            continue
+        if isinstance(st, ast.Delete):
+            continue  # the names are not used afterwards (a use would be an unknown array: refused)
+        if isinstance(st, ast.Assign) and len(st.targets) == 1 and isinstance(st.targets[0], ast.Name):
+            n = st.targets[0].id
+            if n in bound or n in kinds or n == wf.win:
+                bad(f"{n} rebound", st)
+            wf.locals.append((n, expr(st.value)))
+            bound.add(n)
+            continue
+        if isinstance(st, ast.Return) and isinstance(st.value, ast.BinOp) and isinstance(st.value.op, ast.Div):
+            wf.ret = (nansum(st.value.left), nansum(st.value.right))
+            continue
+        bad(f"unsupported statement {ast.unparse(st)[:60]}", st)
+    if wf.ret is None:
+        bad("no return")
+    try:
+        wf.source = ast.unparse(fn)
+    except Exception:  # pylint: disable=broad-except
+        wf.source = ""
+    return wf
+
+
+def _wl(e):
+    if e[0] == "var":
+        return f"{lname(e[1])} a b"
+    if e[0] == "subc":
+        return f"({_wl(e[1])} - WIN {lname(e[2])} {lname(e[3])})"
+    if e[0] == "ufun":
+        return f"({_wl(e[2])}).map (fun d => {e[1]} d {lname(e[3])})"
+    if e[0] == "mulk":
+        return f"(Val.num ({lname(e[1])} a b) * ({_wl(e[2])}))"
+    if e[0] == "mul":
+        return f"(({_wl(e[1])}) * ({_wl(e[2])}))"
+    raise AssertionError(e)
+
+
+def render_winfn(wf: WinFn) -> str:
+    ty = {"table": "Nat → Nat → Rat", "rat": "Rat", "nat": "Nat"}
+    params = [f"({ln} : Rat → Rat → Rat)" for ln in wf.ufuns.values()] + ["(w : Nat)"]
+    params += [f"({lname(p)} : {ty[k]})" for p, k in wf.params] + [f"({lname(wf.win)} : Nat → Nat → Val)"]
+    out = [f"def {wf.lean_name} {' '.join(params)} : Val :="]
+    for n, e in wf.locals:
+        out.append(f"  let {lname(n)} : Nat → Nat → Val := fun a b => {_wl(e).replace('WIN', lname(wf.win))}")
+    num, den = wf.ret
+    out.append(f"  nandiv (nansumW w (fun a b => {_wl(num).replace('WIN', lname(wf.win))})) "
+               f"(nansumW w (fun a b => {_wl(den).replace('WIN', lname(wf.win))}))")
+    return "\n".join(out)
+
+
+def eval_winfn(wf: WinFn, win, w, args, ufuns):
+    """one window (w x w nested list of floats / nan) -> the kernel's value, in float64 like numpy"""
+    env = dict(zip([p for p, _ in wf.params], args))
+    arrays = {wf.win: win}
+
+    def cell(e, a, b):
+        if e[0] == "var":
+            return arrays[e[1]][a][b]
+        if e[0] == "subc":
+            return cell(e[1], a, b) - win[env[e[2]]][env[e[3]]]
+        if e[0] == "ufun":
+            v = cell(e[2], a, b)
+            return v if is_nan(v) else ufuns[e[1]](v, env[e[3]])
+        if e[0] == "mulk":
+            return env[e[1]][a][b] * cell(e[2], a, b)
+        return cell(e[1], a, b) * cell(e[2], a, b)
+
+    for n, e in wf.locals:
+        arrays[n] = [[cell(e, a, b) for b in range(w)] for a in range(w)]
+
+    def nansum(e):
+        return math.fsum(v for a in range(w) for b in range(w) for v in [cell(e, a, b)] if not is_nan(v))
+
+    num, den = nansum(wf.ret[0]), nansum(wf.ret[1])
+    if den == 0:
+        return NAN if num == 0 else math.copysign(math.inf, num)
+    return num / den
